@@ -633,6 +633,7 @@ def pingpong(ctx, impl, model_ok):
                              replay=dict(message=mi, plan=[(b, kd, str(n)) for (b, kd, n) in plan], chunks=ch, data=out.hex()))
             tokcases.append((mi, [(b, (n, PINGB if kd == "PING" else PONGB)) for (b, kd, n) in plan], want_pongs))
         origs[mi] = [(t[2], t[3]) for t in toks]
+    discarding(ctx, impl, nums)
     # single tokens: PING n alone -> exactly PONG n; PONG n alone -> nothing; numbers beyond 64 header digits are refused
     singles = []
     for n in nums + [2 ** 448, 2 ** 448 + 12345, 2 ** 455]:
@@ -652,6 +653,74 @@ def pingpong(ctx, impl, model_ok):
                              replay=dict(n=str(n), kind=kind))
     if model_ok:
         pp_correspond(ctx, impl, origs, tokcases, singles)
+
+
+def discarding(ctx, impl, nums):
+    """PING/PONG while the receiver is discarding the rest of a rejected / aborted sequence: every token gap of
+    messages that hit a Violation (wrong type, too long, bad opentype, over-long string) or a sender ABORT at several
+    depths, followed by a good message.  Each PING(n) must be answered by exactly PONG(n), in order; PONGs by nothing;
+    objects / violations reported must be those of the stream without pings."""
+    rng = ctx.rng
+    for si, (name, constraint, tokens) in enumerate(impl.violating_streams()):
+        data = b"".join(tokens)
+        ref = impl.decode_events(constraint, data)
+        refb = impl.decode_events(constraint, data, [1] * len(data))
+        kinds = [e[0] for e in ref["events"]]
+        if ref["exc"] or ref["written"] or ref["lost"] or "object" not in kinds or ref["events"] != refb["events"] \
+                or not ("violation" in kinds or "ABORT" in name):
+            # the stream itself is not handled as intended (C07's business): do not blame the pings
+            ctx.note("C15 discard stream %r unusable as a reference: %r / bytewise %r" % (name, ref, refb["events"]))
+            continue
+        ctx.hist("discard-stream", name)
+        plans = []
+        k = si
+        for gap in range(len(tokens) + 1):
+            for kind in ("PING", "PONG"):
+                plans.append([(gap, kind, nums[k % len(nums)])])
+                k += 1
+        for _ in range(ctx.n(10, 150)):
+            plans.append(sorted(((rng.randrange(len(tokens) + 1), rng.choice(["PING", "PING", "PONG"]), rng.choice(nums))
+                                 for _ in range(rng.randint(2, 8))), key=lambda x: x[0]))
+        for plan in plans:
+            out = bytearray()
+            pi = 0
+            for gap in range(len(tokens) + 1):
+                while pi < len(plan) and plan[pi][0] == gap:
+                    _, kind, n = plan[pi]
+                    out += impl.ping_bytes(n, impl.PING if kind == "PING" else impl.PONG)
+                    pi += 1
+                if gap < len(tokens):
+                    out += tokens[gap]
+            out = bytes(out)
+            want_pongs = [n for (_, kd, n) in plan if kd == "PING"]
+            want_written = b"".join(impl.ping_bytes(n, impl.PONG) for n in want_pongs)
+            chunkings = [None, [1] * len(out)]
+            if len(plan) > 1 or rng.random() < 0.3:
+                ch = []
+                left = len(out)
+                while left > 0:
+                    c = min(left, rng.randint(1, 7))
+                    ch.append(c)
+                    left -= c
+                chunkings.append(ch)
+            for ch in chunkings:
+                r = impl.decode_events(constraint, out, ch)
+                ctx.case(["pp-discard", si, [(g, kd, str(n)) for (g, kd, n) in plan],
+                          "whole" if ch is None else ("bytewise" if len(ch) == len(out) else ch)], nontrivial=True)
+                ctx.hist("origin", "pingpong-discard")
+                why = None
+                if r["exc"] or r["lost"]:
+                    why = ("oracle/ping-disturbs-message", "receiver raised / dropped the connection: %r lost=%r" % (r["exc"], r["lost"]))
+                elif r["events"] != ref["events"]:
+                    why = ("oracle/ping-disturbs-message", "outcome %r instead of %r" % (r["events"], ref["events"]))
+                elif r["written"] != want_written:
+                    got = [(t[2], t[3]) for t in safe_tokenize(impl, r["written"])]
+                    why = ("oracle/pong-mismatch", "PINGs %r were answered with %r (header, type byte)" % (want_pongs, got))
+                if why:
+                    ctx.fail(why[0], why[1] + "  [stream %r (receiver discards part of it), insertions (token gap, token, number) %r, "
+                             "chunking %s, bytes %s]" % (name, plan, "whole" if ch is None else ch[:20], out.hex()),
+                             replay=dict(stream=name, plan=[(g, kd, str(n)) for (g, kd, n) in plan], chunks=ch, data=out.hex(),
+                                         tokens=[t.hex() for t in tokens]))
 
 
 def safe_tokenize(impl, data):
